@@ -25,6 +25,8 @@ func init() {
 			c.min("R-LOCKS/L1", 20)
 			c.min("R-LOCKS/L4", 15)
 			c.ruleAddBlock()
+			c.ruleAtomicAdd()
+			c.min("R-ATOMICADD", 1)
 			c.ruleRangeChain()
 			c.ruleHashesAtNumberBound()
 			c.min("R-ADDBLOCK", 5)
@@ -176,7 +178,9 @@ func init() {
 			"Not decided: the counts for particular trees; the initial nil best leaf when the only leaf has number 0 is short-circuited by bestBlock.",
 		"time.Time.Before/Equal and bytes.Compare semantics", "DESIGN.md §3 R-CMP/spec; §4 C16",
 		func(c *Ctx) {
-			c.load(btDir)
+			c.load(btDir, "dot/types")
+			c.rulePrimaryOnly()
+			c.min("R-PRIMARYONLY", 3)
 			c.ruleHighestLeaf()
 			c.ruleArrivalStored()
 			c.min("R-CMP/spec", 27)
